@@ -95,9 +95,10 @@ def run_check(prop: str, tier: str, seed: int) -> int:
     # 3. obligations + audit
     theorems = list(getattr(mod, 'THEOREMS', []))
     lean_module = getattr(mod, 'LEAN_MODULE', f'CC.Properties.{prop}')
-    mod_ok = build.lake_rc == 0 or core.build_target(lean_module)[0]
+    lean_modules = [lean_module] + list(getattr(mod, 'LEAN_MODULE_EXTRA', []))
+    mod_ok = build.lake_rc == 0 or all(core.build_target(m)[0] for m in lean_modules)
     forbidden = core.grep_forbidden()
-    axioms = core.audit_axioms(lean_module, theorems) if mod_ok else {t: None for t in theorems}
+    axioms = core.audit_axioms(lean_modules, theorems) if mod_ok else {t: None for t in theorems}
     undischarged = []
     for t in theorems:
         ax = axioms.get(t)
